@@ -67,10 +67,13 @@ func c16Message(c c16Case, rng *rand.Rand) string {
 		prefix = c.Prefix
 	}
 	last := map[string]string{"": "", "text": "some log text", "100": "100", "WARN": "WARN something odd", "ERROR": "ERROR|boom",
-		"FATAL": "FATAL", "crlf": "dos line\r", "utf8": "grüße ✓ 日本", "esc": "\x1b[31mred\x1b[0m text", "OK": "OK"}[c.Last]
+		"FATAL": "FATAL", "crlf": "dos line\r", "utf8": "grüße ✓ 日本", "esc": "\x1b[31mred\x1b[0m text", "OK": "OK",
+		"indent": []string{"  ERROR indented", "\tWARN after a tab", " FATAL one blank", "   text only indented"}[rng.Intn(4)],
+		"trail": []string{"ERROR trailing blanks   ", "text with a tab at the end\t", "WARN \t "}[rng.Intn(3)]}[c.Last]
 	if c.Prefix == "AGGREGATE" || c.Prefix == "A" {
 		last = map[string]string{"": "", "text": "hostA", "100": "g∥3∥count($line)≔3∥", "WARN": "g∥x∥count($line)≔1∥", "ERROR": "∥∥∥",
-			"FATAL": "g∥2∥", "crlf": "g∥2∥count($line)≔\r∥", "utf8": "grüße∥1∥count($line)≔1∥", "esc": "∥", "OK": "a,b∥7∥count($line)≔7∥$hostname≔x∥"}[c.Last]
+			"FATAL": "g∥2∥", "crlf": "g∥2∥count($line)≔\r∥", "utf8": "grüße∥1∥count($line)≔1∥", "esc": "∥", "OK": "a,b∥7∥count($line)≔7∥$hostname≔x∥",
+			"indent": "  g∥1∥count($line)≔1∥", "trail": "g∥1∥count($line)≔1∥  "}[c.Last]
 	}
 	middle := []string{"vhost", fmt.Sprintf("%3d", []int{100, 99, 7}[rng.Intn(3)]), fmt.Sprint(1 + rng.Intn(5000)), "file.log", "x", "y"}
 	fields := []string{prefix}
